@@ -115,6 +115,47 @@ impl PhysicalOperator for UnionExec {
             .then(|(input, p)| async move { input.execute(p).await })
             .try_flatten();
 
-        Ok(Box::pin(chained))
+        // Every branch after the first keeps its own column names (`SELECT a AS x
+        // ... UNION ALL SELECT b AS y ...`); the operator reports the first branch's
+        // schema, so hand the same columns out under those names.
+        let schema = self.schema.clone();
+        let relabelled = chained.map(move |batch| {
+            let batch = batch?;
+            let own = batch.schema();
+            let same_shape = own.fields().len() == schema.fields().len()
+                && own
+                    .fields()
+                    .iter()
+                    .zip(schema.fields().iter())
+                    .all(|(x, y)| x.data_type() == y.data_type());
+            let renamed = own
+                .fields()
+                .iter()
+                .zip(schema.fields().iter())
+                .any(|(x, y)| x.name() != y.name());
+            if same_shape && renamed {
+                let fields: Vec<arrow::datatypes::Field> = own
+                    .fields()
+                    .iter()
+                    .zip(schema.fields().iter())
+                    .map(|(x, y)| {
+                        arrow::datatypes::Field::new(
+                            y.name(),
+                            x.data_type().clone(),
+                            x.is_nullable() || y.is_nullable(),
+                        )
+                    })
+                    .collect();
+                arrow::record_batch::RecordBatch::try_new(
+                    Arc::new(arrow::datatypes::Schema::new(fields)),
+                    batch.columns().to_vec(),
+                )
+                .map_err(crate::error::QueryError::from)
+            } else {
+                Ok(batch)
+            }
+        });
+
+        Ok(Box::pin(relabelled))
     }
 }
